@@ -92,3 +92,49 @@ Theorem c20_v0_refuted :
   exists x, ~ spec tsig tverify x (observe_all tsig tverify (keys x) (outs tsig (tfinal_v0 x))).
 Proof. exact v0_refuted. Qed.
 Print Assumptions c20_v0_refuted.
+
+(* OS threads.  The jobs (logical threads) are served by OS workers - a pool thread serves jobs of
+   DIFFERENT entities one after the other, the main thread may make calls too - in any assignment
+   and order, under EVERY schedule of the workers: the property holds, because every worker
+   schedule is a schedule of the jobs (old and current code alike) *)
+Theorem c20_worker_schedule_is_job_schedule :
+  forall sigv sign verify key_of fixed ws wsched (st : state sigv),
+    exists l, wrun_gen sigv sign verify key_of fixed ws wsched st = run_gen sigv sign verify key_of fixed l st.
+Proof. exact wrun_is_run. Qed.
+Print Assumptions c20_worker_schedule_is_job_schedule.
+
+Theorem c20_worker_pool_own_key :
+  forall (sigv : Type) (sign : nat -> nat -> payload -> sigv) (verify : nat -> nat -> payload -> sigv -> bool),
+    (forall k d p k' d' p', verify k' d' p' (sign k d p) = true <-> k' = k /\ d' = d /\ p' = p) ->
+    forall (x : input sigv) (ws : list (list nat)),
+      spec sigv verify x (observe_all sigv verify (keys x) (outs sigv (wfinal sigv sign verify x ws))).
+Proof. exact pool_holds. Qed.
+Print Assumptions c20_worker_pool_own_key.
+
+Theorem c20_worker_pool_complete_results :
+  forall sigv sign verify (x : input sigv) ws,
+    finished sigv (wfinal sigv sign verify x ws) = true ->
+    outs sigv (wfinal sigv sign verify x ws) =
+    map (fun th => map (op_result sigv sign verify (kof (keys x)) (fst th)) (snd th)) (progs x).
+Proof. exact pool_complete_outs. Qed.
+Print Assumptions c20_worker_pool_complete_results.
+
+(* Entity life cycle.  For every deployment script (key pairs installed at paths with any time
+   stamps, in place / by rename / by symlink switch, entities built in between, roll-overs and
+   roll-backs): the key pair an entity signs with and the certificate it publishes are both the pair
+   that was installed at its path when it was built *)
+Theorem c20_deploy_own_pair :
+  forall d, deploy_keys d = published d /\ deploy_certs d = published d.
+Proof. exact deploy_published. Qed.
+Print Assumptions c20_deploy_own_pair.
+
+(* ... and the whole process - deployment by the main thread, jobs of the entities served by OS
+   workers under every schedule - satisfies the property with respect to those certificates *)
+Theorem c20_deploy_pool_own_key :
+  forall (sigv : Type) (sign : nat -> nat -> payload -> sigv) (verify : nat -> nat -> payload -> sigv -> bool),
+    (forall k d p k' d' p', verify k' d' p' (sign k d p) = true <-> k' = k /\ d' = d /\ p' = p) ->
+    forall d g ps ws wsched,
+      spec sigv verify {| keys := published d; gon := g; progs := ps; sched := wsched |}
+           (observe_all sigv verify (deploy_certs d) (outs sigv (dfinal sigv sign verify d g ps ws wsched))).
+Proof. exact deploy_pool_holds. Qed.
+Print Assumptions c20_deploy_pool_own_key.
